@@ -19,6 +19,7 @@ import GwModel.NewOpts
 import GwModel.Middleware
 import GwModel.GwQuery
 import GwModel.MergeDirs
+import GwModel.UrlMap
 /-! gwdrv: one JSON object per line in, one per line out (DESIGN §2.2). Core + Lean.Data.Json only. -/
 open Lean Codec
 
@@ -354,8 +355,27 @@ def runMergeDirs (j : Json) : Json :=
   let strs (k : String) : List String := (getArr j k).map fun x => x.getStr?.toOption.getD ""
   Json.mkObj [("equal", .bool (Md.listsEqual (strs "a") (strs "b")))]
 
+/-- a sequence of FieldURLMap operations through `Um`: the answers of the lookups, in order -/
+def runUrlMap (j : Json) : Json :=
+  let strs (o : Json) (k : String) : List String := (getArr o k).map fun x => x.getStr?.toOption.getD ""
+  let step (acc : Um.Tbl × List Json) (o : Json) : Um.Tbl × List Json :=
+    let (m, outs) := acc
+    match getStr o "do" with
+    | "register" => (Um.register m (getStr o "parent") (getStr o "field") (strs o "locs"), outs)
+    | "concat" =>
+      let other : Um.Tbl := (getArr o "other").map fun e => (Um.keyFor (getStr e "parent") (getStr e "field"), strs e "locs")
+      (Um.concat m other, outs)
+    | "get" =>
+      match Um.urlFor m (getStr o "parent") (getStr o "field") with
+      | .ok l => (m, outs ++ [Json.mkObj [("ok", Json.arr (l.map Json.str).toArray)]])
+      | .error e => (m, outs ++ [Json.mkObj [("error", .str e)]])
+    | _ => (m, outs)
+  let (_, outs) := (getArr j "ops").foldl step ([], [])
+  Json.mkObj [("answers", Json.arr outs.toArray)]
+
 def handle (j : Json) : Json :=
   match getStr j "op" with
+  | "urlmap" => runUrlMap j
   | "mergedirs" => runMergeDirs j
   | "mono" => Json.mkObj [("data", encVal (Mono.mono (decCase j)))]
   | "merge" => runMerge j
